@@ -2,7 +2,7 @@
 type-level mutations of them, random bytes) go through the real ParseData and LoadHIDIConfig; a panic, a crash of
 the runner or a time-out is the violation. The model's convert / loadHidi run on the structures the real decoder
 produced and must agree (correspondence); facts pinned by the extractor: the decode call is guarded by recover."""
-import glob, os, random, time, json
+import glob, os, random, re, time, json
 from common import *
 import dev, parsegen, check_c10
 
@@ -35,6 +35,40 @@ def minimise(binary, workdir, data, is_bad, tag):
             break
         cur = min(ok, key=len)
     return cur
+
+
+def ambiguous_aliases(data, KEY, ABS):
+    """True when one table of the file names the same event code twice under different spellings (KEY_3 and x4, x4 and
+    x004): the parser ranges over a Go map of the decoded table, so which entry wins is not determined by the file."""
+    try:
+        text = data.decode("utf8")
+    except UnicodeDecodeError:
+        return False
+    seen = {}
+    for line in text.split("\n"):
+        ls = line.strip()
+        if ls.startswith("["):
+            seen = {}
+            continue
+        m = re.match(r'^"?([A-Za-z0-9_]+)"?\s*=', ls)
+        if not m:
+            continue
+        nm = m.group(1)
+        if nm in KEY:
+            codes = {("k", KEY[nm])}
+        elif nm in ABS:
+            codes = {("a", ABS[nm])}
+        elif re.match(r"^x[0-9a-fA-F]+$", nm):
+            v = int(nm[1:], 16)
+            codes = {("k", v), ("a", v)}
+        else:
+            continue
+        for c in codes:
+            if c in seen and seen[c] != nm:
+                return True
+        for c in codes:
+            seen.setdefault(c, nm)
+    return False
 
 
 def run(prop, tier, seed, verdict):
@@ -83,6 +117,9 @@ def run(prop, tier, seed, verdict):
     # model correspondence on everything that decoded
     model = check_c10.run_model(results)
     disag = [(i, results[i][0], model[i]) for i in model if model[i] != results[i][0] and results[i][0] not in ("panic", "crash", "hang")]
+    # a table naming one code under two spellings has no determined meaning (Go map iteration order): not compared
+    n_amb = sum(1 for i, _, _ in disag if ambiguous_aliases(files[i], KEY, ABS))
+    disag = [d for d in disag if not ambiguous_aliases(files[d[0]], KEY, ABS)]
     # ---- hidi.toml
     hfiles = [open(os.path.join(REPO, "cmd/hidi/hidi-config/hidi.toml"), "rb").read()]
     hb = hfiles[0]
@@ -156,7 +193,7 @@ def run(prop, tier, seed, verdict):
                 "one-line files with odd types; hidi.toml likewise. distinct = distinct file contents; non-trivial: all (every file is a different input to the parser)",
         "kinds": kinds, "outcomes_device_config": outcomes, "outcomes_hidi_config": houtcomes,
         "decoded_and_compared_with_model": decoded, "traces_validated_against_impl": decoded + sum(1 for a, b in hres if b),
-        "disagreements": len(disag) + len(hdis),
+        "disagreements": len(disag) + len(hdis), "not_compared_ambiguous_alias_tables": n_amb,
         "samples": [{"file": files[len(base) + 3].decode("utf8", "replace")[:600], "outcome": results[len(base) + 3][0][:100]}],
         "assumptions": ["hanging is only covered by the run-time limit of the batch (the outcome model has no notion of non-termination)",
                         "go-toml's decoder is third-party code: the theorem quantifies over its outcome (ok / error / panic) and needs the recover guard"],
